@@ -902,40 +902,78 @@ func ruleUnitEvaluators(r *Run) {
 		return
 	}
 	bad := false
-	for _, name := range []string{"parseDuration", "parseBytes"} {
-		fn := p.Method(logqlPkg, "parser", name)
-		if fn == nil {
-			bad = true
-			o.Fail("-", "parser.%s not found", name)
+	// by role: wherever the parser expects a Duration or Bytes token, the token's text is evaluated by
+	// one of the validating functions (the evaluation may sit in parseDuration/parseBytes or in their callers)
+	lexT := p.NamedType(lexerPkg, "TokenType")
+	tconsts := enumConstants(lexT)
+	parserT := p.NamedType(logqlPkg, "parser")
+	nSites := map[string]int{}
+	for _, fn := range p.SrcFuncs() {
+		if pkgPathOf(fn) != modPath+"/"+logqlPkg {
 			continue
 		}
-		// the function whose result is the value that is returned
-		n := 0
-		for _, ret := range returnsOf(fn) {
-			for _, lv := range phiLeaves(ret.Results[0]) {
-				var call *ssa.Call
-				if c, idx, ok := extractOf(stripConv(lv)); ok && idx == 0 {
-					call = c
-				} else if c, ok := stripConv(lv).(*ssa.Call); ok {
-					call = c
+		for _, c := range callsIn(fn) {
+			call, ok := c.(*ssa.Call)
+			if !ok {
+				continue
+			}
+			callee := staticCallee(call)
+			if callee == nil || callee.Signature.Recv() == nil || parserT == nil || !types.Identical(derefType(callee.Signature.Recv().Type()), parserT) {
+				continue
+			}
+			kind := ""
+			for _, a := range call.Call.Args {
+				if cv, ok := constOf(a); ok && lexT != nil && types.Identical(a.Type(), lexT) {
+					for _, k := range []string{"Duration", "Bytes"} {
+						if kc, ok := tconsts[k]; ok && constant.Compare(cv, token.EQL, kc) {
+							kind = k
+						}
+					}
 				}
-				if call == nil {
-					continue // the zero value beside an error
-				}
-				callee := staticCallee(call)
-				if callee == nil {
+			}
+			if kind == "" || callee.Signature.Results().Len() < 2 {
+				continue
+			}
+			// the calls of fn that are handed the token's text
+			for _, c2 := range callsIn(fn) {
+				ev, ok := c2.(*ssa.Call)
+				if !ok || ev == call {
 					continue
 				}
-				n++
-				if !valid[funcName(callee)] {
+				uses := false
+				for _, a := range ev.Call.Args {
+					if !isStringType(a.Type()) {
+						continue
+					}
+					if src, ok := tokenSourceCall(a); ok && src == call {
+						uses = true
+					}
+				}
+				if !uses {
+					continue
+				}
+				ec := staticCallee(ev)
+				if ec == nil {
+					continue
+				}
+				if pkgOfFunc(ec) == pkgOfFunc(fn) && ec.Signature.Recv() != nil {
+					continue // error construction etc. on the parser itself
+				}
+				if pk, _ := calleePkgName(ev); strings.HasSuffix(pk, "go-faster/errors") || pk == "fmt" {
+					continue
+				}
+				nSites[kind]++
+				if !valid[funcName(ec)] {
 					bad = true
-					o.Fail(r.pos(call.Pos()), "parser.%s computes the value with %s, which is not one of the functions the lexer validates unit tokens with (%v)", name, shortFuncName(callee), sortedKeysBool(valid))
+					o.Fail(r.pos(ev.Pos()), "%s evaluates a %s token with %s, which is not one of the functions the lexer validates unit tokens with (%v)", shortFuncName(fn), kind, shortFuncName(ec), sortedKeysBool(valid))
 				}
 			}
 		}
-		if n == 0 {
+	}
+	for _, k := range []string{"Duration", "Bytes"} {
+		if nSites[k] == 0 {
 			bad = true
-			o.Fail(r.pos(fn.Pos()), "parser.%s: no evaluating call found", name)
+			o.Fail(r.pos(su.Pos()), "no place found where the parser evaluates the text of a %s token", k)
 		}
 	}
 	if !bad {
@@ -966,7 +1004,25 @@ func ruleSingleGrouping(r *Run) {
 			continue
 		}
 		// follow only the production's own closures (not the recursive descent into operands)
-		inl := func(c *ssa.Function, d int) bool { return c.Parent() == fn && d <= 2 }
+		// ... and thin helpers around parseGrouping ("the grouping clause, if there is one")
+		prods := map[*ssa.Function]bool{}
+		for _, nm := range []string{"parseVectorAggregationExpr", "parseRangeAggregationExpr", "parseGrouping"} {
+			if f := p.Method(logqlPkg, "parser", nm); f != nil {
+				prods[f] = true
+			}
+		}
+		wrapsGrouping := func(c *ssa.Function) bool {
+			if prods[c] || c.Blocks == nil {
+				return false
+			}
+			for _, cc := range callsIn(c) {
+				if callIs(cc, lq, "(*parser).parseGrouping") {
+					return true
+				}
+			}
+			return false
+		}
+		inl := func(c *ssa.Function, d int) bool { return (c.Parent() == fn || wrapsGrouping(c)) && d <= 2 }
 		w := &feWalker{Fn: fn, Inline: inl, MaxPath: 50000}
 		ends := w.Run()
 		if w.Aborted {
